@@ -106,11 +106,33 @@ def ensure_model(group, api_module=None, dispatch=None, slow=False):
 
 # ---------------------------------------------------------------- running cases
 def _run_chunk(args):
+    """run one shard; if the process dies on a case, that case is answered 'CRASH ...' and the
+       remaining cases are run in a fresh process"""
     exe, lines, extra, timeout = args
-    p = subprocess.run([exe] + extra, input=('\n'.join(lines) + '\n').encode(), stdout=subprocess.PIPE, stderr=subprocess.PIPE, timeout=timeout)
-    out = p.stdout.decode('utf-8', 'replace').split('\n')
-    if out and out[-1] == '': out.pop()
-    return p.returncode, out, p.stderr.decode('utf-8', 'replace')
+    out = []; rc = 0; err = ''
+    rest = list(lines)
+    while rest:
+        try:
+            p = subprocess.run([exe] + extra, input=('\n'.join(rest) + '\n').encode(), stdout=subprocess.PIPE, stderr=subprocess.PIPE, timeout=timeout)
+            o = p.stdout.decode('utf-8', 'replace').split('\n'); prc = p.returncode; perr = p.stderr.decode('utf-8', 'replace')
+        except subprocess.TimeoutExpired as e:
+            o = (e.stdout or b'').decode('utf-8', 'replace').split('\n'); prc = -999; perr = 'TIMEOUT after %ds' % timeout
+        if o and o[-1] == '': o.pop()
+        if prc == 0 and len(o) >= len(rest):
+            out += o[:len(rest)]; break
+        # the process died: complete lines are answers; the next case is the one that crashed
+        if len(o) > len(rest): o = o[:len(rest)]
+        if prc != 0 and o and len(o) <= len(rest) and not perr and False: pass
+        done = len(o)
+        # a partially written last line belongs to the crashing case
+        out += o[:done]
+        if done < len(rest):
+            out.append('CRASH rc=%d %s' % (prc, perr.strip().replace('\n', ' | ')[-300:]))
+            rest = rest[done + 1:]
+        else:
+            rest = []
+        rc = prc; err = perr
+    return rc, out, err
 
 def run_cases(exe, lines, extra=(), shards=None, timeout=3000):
     """run a driver over case lines, sharded over processes; returns list of result lines.
@@ -211,6 +233,15 @@ class Check:
             if a != b:
                 bad.append((line, cls, a, b))
         self.notes.append('%s: %d cases in %.1fs, %d disagreements' % (label or 'correspondence', len(lines), time.time() - t, len(bad)))
+        if bad:
+            hist = {}
+            for _, cls, _, _ in bad: hist[cls] = hist.get(cls, 0) + 1
+            self.notes.append('   disagreement classes: ' + ', '.join('%s=%d' % kv for kv in sorted(hist.items())))
+            if os.environ.get('VERIF_DEBUG'):
+                shown = set()
+                for line, cls, a, b in bad:
+                    if cls in shown: continue
+                    shown.add(cls); print('DEBUG', cls, line[:300]); print('   impl :', a[:200]); print('   model:', b[:200])
         if cases and len(self.samples) < 12:
             for k in (0, len(cases) // 2, len(cases) - 1):
                 self.samples.append({'case': cases[k][0][:600], 'class': cases[k][1], 'impl': ri[k][:300], 'model': rm[k][:300]})
